@@ -17,7 +17,7 @@ structure DState where
 def modelStep (d : DState) (op : List String) (_obs : List (List String)) : DState × List String :=
   match op with
   | ["run"] =>
-    (d, ["out " ++ Proto.hex (TeamCity.stream (runAll d.reg.filter d.reg.scripts))])
+    (d, ["out " ++ Proto.hex (TeamCity.streamV (d.reg.verbosity == 2) (runAll d.reg.filter d.reg.scripts))])
   | ["skip"] => (d, [])
   | w =>
     match applyOp d.reg w with
@@ -107,7 +107,15 @@ def isText : Msg → Bool
   | .text _ => true
   | _ => false
 
+/-- a test prints text containing `#` (it could print a service message of its own): outside the
+    quantifier of the property, which is about names, paths and failure messages -/
+def printsHash (scripts : List Script) : Bool :=
+  scripts.any fun t => t.acts.any fun a => match a with
+    | .print f _ x => f.contains 35 || x.contains 35
+    | _ => false
+
 def specRun (reg : Reg) (out : Text.Bytes) : Option String :=
+  if printsHash reg.scripts then none else
   match TeamCity.parse out with
   | .error e => some s!"stream does not parse as service messages: {e}"
   | .ok msgs =>
